@@ -39,7 +39,8 @@ RULE = ("frames of 1-10 rows over all nine stypes (dict-valued text_tokenized, b
         "without target, with and without statistics, plus frames WITHOUT features that carry only an explicit "
         "num_rows (and y) and their selections / concatenations; history cases run 2-7 events (materialize with/without path, new Dataset + materialize, a "
         "new Dataset over ANOTHER table restoring itself from the cache, a derived dataset (slice / shuffle / "
-        "index_select) calling materialize(path), crash k bytes into a save, convert new rows) over one cache path; trunc cases cut a written cache at "
+        "index_select) calling materialize(path), the path handed to another table after it was loaded (file "
+        "removed and rewritten / overwritten in place), the complete file cut short in place after it was loaded, crash k bytes into a save, convert new rows) over one cache path; trunc cases cut a written cache at "
         "every k (thorough) or 64 stratified k incl. 0, 1, len-1 and zip record boundaries (quick). distinct = "
         "distinct (kind, stype multiset, variant, shape, event/outcome sequence, file length); non-trivial = the "
         "frame has at least one feature column or at least one row and the run reached save/load (resp. at least one event touched "
@@ -168,7 +169,31 @@ def gen_newdf(rng, n):
     return {"e": "newdf", "rows": [rng.randint(0, n - 1) for _ in range(rng.randint(2, 5))], "shift": rng.chance(0.7)}
 
 
+def gen_rewrite(rng, n):
+    """the cache path is handed to ANOTHER table: old file removed (or overwritten in place by a complete file)"""
+    return {"e": "rewrite", "how": rng.pick(["remove", "remove", "overwrite"]),
+            "rows": [rng.randint(0, n - 1) for _ in range(rng.randint(2, 5))], "shift": rng.chance(0.7)}
+
+
+def gen_cut(rng):
+    """the complete cache file (possibly loaded before in this process) is cut short IN PLACE"""
+    return {"e": "cut", "k": rng.wpick([(2, {"t": "abs", "v": 0}), (1, {"t": "abs", "v": 1}), (2, {"t": "end", "v": 1}),
+                                        (6, {"t": "frac", "v": rng.randint(1, 999)}), (1, {"t": "full"})])}
+
+
 def gen_events(rng, n):
+    r = rng.random()
+    if r < 0.10:      # one path reused within the process after it has been loaded
+        ev = [{"e": "mat", "path": True}, {"e": "new", "path": True}, gen_rewrite(rng, n), {"e": "new", "path": True}]
+        if rng.chance(0.6):
+            ev.append(gen_conv(rng, n))
+        return ev
+    if r < 0.20:
+        ev = [{"e": "mat", "path": True}, {"e": "new", "path": True}, gen_cut(rng),
+              rng.pick([{"e": "new", "path": True}, gen_newdf(rng, n)])]
+        if rng.chance(0.3):
+            ev += [gen_rewrite(rng, n), {"e": "new", "path": True}]
+        return ev
     r = rng.random()
     if r < 0.12:
         ev = [{"e": "mat", "path": rng.chance(0.8)}]
@@ -203,7 +228,8 @@ def gen_events(rng, n):
         ev.append(rng.wpick([(3, {"e": "mat", "path": True}), (2, {"e": "mat", "path": False}),
                              (3, {"e": "new", "path": True}), (1, {"e": "new", "path": False}),
                              (2, {"e": "crash", "k": gen_k(rng)}), (3, gen_conv(rng, n)),
-                             (2, gen_derived(rng, n)), (2, gen_newdf(rng, n))]))
+                             (2, gen_derived(rng, n)), (2, gen_newdf(rng, n)), (2, gen_rewrite(rng, n)),
+                             (2, gen_cut(rng))]))
     return ev
 
 
@@ -490,7 +516,8 @@ def file_state(path, fresh_obs, fresh_stats):
 
 
 def conv_df(df, ev):
-    d2 = df.iloc[ev["rows"]].copy()
+    """rows of df by position (taken modulo its length: tables change size along a history)"""
+    d2 = df.iloc[[r % len(df) for r in ev["rows"]]].copy()
     if ev["shift"] and len(d2) > 1:
         import pandas as pd
         for j, col in enumerate(list(d2.columns)):
@@ -515,37 +542,52 @@ def other_table(df, ev):
 
 
 def derive(ds, op):
+    n = len(ds)
     if op["t"] == "slice":
-        return ds[:op["k"]]
+        return ds[:op["k"] % (n + 1)]
     if op["t"] == "shuffle":
         return ds.shuffle()
-    return ds.index_select(torch.tensor(op["idx"], dtype=torch.long))
+    return ds.index_select(torch.tensor([i % n for i in op["idx"]], dtype=torch.long))
+
+
+class Ref:
+    """The table the cache path currently stands for, with its fresh computation (no path involved)."""
+    def __init__(self, desc, df, refs):
+        self.desc, self.df = desc, df
+        self.fresh = materialized(desc, df=df)
+        self.obs, self.stats = obs_frame(self.fresh.tensor_frame), stats_json(self.fresh.col_stats)
+        self.id = len(refs)
+        refs.append({"raw": raw_frame(self.fresh.tensor_frame), "obs": self.obs, "stats": self.stats})
+
+    def new(self):
+        return G.build_dataset(self.desc, df=self.df)[0]
 
 
 def run_history(case):
     desc = case["frame"]
+    obs = {"refs": [], "steps": []}
     try:
-        df = G.build_df(desc)
-        fresh = materialized(desc, df=df)
+        ref = Ref(desc, G.build_df(desc), obs["refs"])
     except Exception as ex:
         return {"skip": f"preparation raised {C.exc_name(ex)}: {str(ex)[:200]}"}
-    f_obs, f_stats = obs_frame(fresh.tensor_frame), stats_json(fresh.col_stats)
-    obs = {"fresh_raw": raw_frame(fresh.tensor_frame), "fresh": f_obs, "fresh_stats": f_stats, "steps": []}
-    path = fresh_path("h")
-    new = lambda: G.build_dataset(desc, df=df)[0]  # noqa: E731
-    cur = new()
+    path, path2 = fresh_path("h"), fresh_path("h2")
+    cur = ref.new()
+
+    def observe(st, ds, call):
+        try:
+            call()
+            st.update(ok=True, tf=obs_frame(ds.tensor_frame), stats=stats_json(ds.col_stats))
+        except Exception as ex:
+            st.update(ok=False, exc=C.exc_name(ex), msg=str(ex)[:200], still_unmaterialized=not ds.is_materialized)
+
     try:
         for i, ev in enumerate(case["events"]):
-            before = file_state(path, f_obs, f_stats)
-            st = {"before": before}
+            before = file_state(path, ref.obs, ref.stats)
+            st = {"before": before, "ref_before": ref.id}
             if ev["e"] in ("mat", "new"):
                 if ev["e"] == "new":
-                    cur = new()
-                try:
-                    cur.materialize(path=path if ev["path"] else None)
-                    st.update(ok=True, tf=obs_frame(cur.tensor_frame), stats=stats_json(cur.col_stats))
-                except Exception as ex:
-                    st.update(ok=False, exc=C.exc_name(ex), msg=str(ex)[:200], still_unmaterialized=not cur.is_materialized)
+                    cur = ref.new()
+                observe(st, cur, lambda: cur.materialize(path=path if ev["path"] else None))
             elif ev["e"] == "newdf":
                 # only meaningful when there is a cache to restore from (without one the other table
                 # would legitimately become the cache's content)
@@ -553,15 +595,45 @@ def run_history(case):
                     st["skipped"] = "no cache file"
                 else:
                     sha = file_sha(path)
-                    cur = G.build_dataset(desc, df=other_table(df, ev))[0]
-                    try:
-                        cur.materialize(path=path)
-                        st.update(ok=True, tf=obs_frame(cur.tensor_frame), stats=stats_json(cur.col_stats))
-                    except Exception as ex:
-                        st.update(ok=False, exc=C.exc_name(ex), msg=str(ex)[:200],
-                                  still_unmaterialized=not cur.is_materialized)
-                        cur = new()
+                    cur = G.build_dataset(desc, df=other_table(ref.df, ev))[0]
+                    observe(st, cur, lambda: cur.materialize(path=path))
+                    if not st["ok"]:
+                        cur = ref.new()
                     st["file_unchanged"] = file_sha(path) == sha
+            elif ev["e"] == "rewrite":
+                # the cache path is given to ANOTHER table: the old file is removed (or overwritten by a
+                # complete file written elsewhere) -- from here on the path stands for the other table
+                try:
+                    ref2 = Ref(desc, other_table(ref.df, ev), obs["refs"])
+                except Exception as ex:
+                    st["skipped"] = f"other table does not materialize: {C.exc_name(ex)}"
+                    ref2 = None
+                if ref2 is not None:
+                    ref = ref2
+                    if ev["how"] == "remove":
+                        rm(path)
+                        cur = ref.new()
+                        observe(st, cur, lambda: cur.materialize(path=path))
+                    else:
+                        w = ref.new()
+                        observe(st, w, lambda: w.materialize(path=path2))
+                        if st["ok"]:
+                            with open(path2, "rb") as f:
+                                data = f.read()
+                            with open(path, "wb") as f:           # overwrite in place
+                                f.write(data)
+                        rm(path2)
+                        cur = ref.new()
+            elif ev["e"] == "cut":
+                # the complete file is cut short IN PLACE (it may have been loaded before); the process restarts
+                if before != "complete":
+                    st["skipped"] = "no complete cache file"
+                else:
+                    length = os.path.getsize(path)
+                    k = resolve_k(ev["k"], length)
+                    os.truncate(path, k)
+                    st.update(len=length, k=k)
+                    cur = ref.new()
             elif ev["e"] == "derived":
                 if before == "absent" or not cur.is_materialized:
                     st["skipped"] = "no cache file" if before == "absent" else "live dataset not materialized"
@@ -593,11 +665,11 @@ def run_history(case):
                     k = resolve_k(ev["k"], length)
                     os.truncate(path, k)
                     st.update(len=length, k=k)
-                cur = new()                                  # the process is gone
+                cur = ref.new()                              # the process is gone
             else:
-                d2 = conv_df(df, ev)
+                d2 = conv_df(ref.df, ev)
                 try:
-                    want = G.read_tf(fresh.convert_to_tensor_frame(d2))
+                    want = G.read_tf(ref.fresh.convert_to_tensor_frame(d2))
                 except Exception as ex:
                     st["fresh_raises"] = C.exc_name(ex)
                     want = None
@@ -608,10 +680,11 @@ def run_history(case):
                         st.update(got=got, want=want)
                 except Exception as ex:
                     st.update(ok=False, exc=C.exc_name(ex), msg=str(ex)[:200])
-            st["after"] = file_state(path, f_obs, f_stats)
+            st["ref"] = ref.id
+            st["after"] = file_state(path, ref.obs, ref.stats)
             obs["steps"].append(st)
     finally:
-        rm(path)
+        rm(path, path2)
     return obs
 
 
@@ -760,6 +833,28 @@ def oracle_history_events(case, obs):
         before, after = st["before"], st["after"]
         if "skipped" in st:
             continue
+        fresh = obs["refs"][st["ref"]]     # the table the cache path stands for at this event
+        if ev["e"] == "cut":
+            mat = False
+            if st["k"] < st["len"] and after != "corrupt":
+                return dict(key="hist:cut-file-loads", what=f"event {i}: the cache file cut in place at {st['k']} of "
+                            f"{st['len']} bytes is {after} (torch_frame.load accepts a strict prefix)", event=ev)
+            continue
+        if ev["e"] == "rewrite":
+            # the path now belongs to another table; the writer computes from scratch
+            if not st["ok"]:
+                return dict(key="hist:materialize-raises:rewrite", what=f"event {i}: materialize(path) of a dataset over "
+                            f"another table, with no file at its path, raised {st['exc']} ({st['msg']})", event=ev)
+            if st["tf"] != fresh["obs"] or st["stats"] != fresh["stats"]:
+                return dict(key="hist:stale-after-rewrite", what=f"event {i}: after the old cache file was removed, "
+                            "materialize(path) of a dataset over another table returned data that differs from its own "
+                            "fresh computation", expected={"tf": fresh["obs"], "stats": fresh["stats"]},
+                            observed={"tf": st["tf"], "stats": st["stats"]}, event=ev)
+            if after != "complete":
+                return dict(key="hist:no-file-written", what=f"event {i}: after the rewrite the cache file is {after}",
+                            event=ev)
+            mat = ev["how"] == "remove"
+            continue
         if ev["e"] == "derived":
             if not st["file_unchanged"]:
                 return dict(key="hist:derived-overwrote-cache",
@@ -781,7 +876,7 @@ def oracle_history_events(case, obs):
             if uses_file and before == "corrupt":
                 # a cache file cut short raises an error -- never partial data, never a silent recomputation
                 if st["ok"]:
-                    same = st["tf"] == obs["fresh"] and st["stats"] == obs["fresh_stats"]
+                    same = st["tf"] == fresh["obs"] and st["stats"] == fresh["stats"]
                     return dict(key="hist:no-raise-on-cut-cache",
                                 what=f"event {i} {ev['e']}: materialize(path) on a cache file cut short did not raise; it "
                                      f"returned data that {'equals' if same else 'DIFFERS from'} the fresh computation "
@@ -798,12 +893,14 @@ def oracle_history_events(case, obs):
                             what=f"event {i} {ev}: materialize raised {st['exc']} ({st['msg']}) with the cache file "
                                  f"{before} and the object {'materialized' if mat else 'fresh'}",
                             expected="fresh computation", observed=st["exc"])
-            if st["tf"] != obs["fresh"] or st["stats"] != obs["fresh_stats"]:
-                part = "stats" if st["tf"] == obs["fresh"] else frame_diff(obs["fresh"], st["tf"])
+            if st["tf"] != fresh["obs"] or st["stats"] != fresh["stats"]:
+                part = "stats" if st["tf"] == fresh["obs"] else frame_diff(fresh["obs"], st["tf"])
+                stale = any(st["tf"] == r["obs"] and st["stats"] == r["stats"] for r in obs["refs"][:st["ref"]])
                 return dict(key=f"hist:cached-differs:{part}",
                             what=f"event {i} {ev} (cache file {before}): materialize returned data that differs from a "
-                                 f"fresh computation in {part}",
-                            expected={"tf": obs["fresh"], "stats": obs["fresh_stats"]},
+                                 f"fresh computation of the table the file was written from in {part}" +
+                                 (" -- it is the content of an EARLIER file at this path" if stale else ""),
+                            expected={"tf": fresh["obs"], "stats": fresh["stats"]},
                             observed={"tf": st["tf"], "stats": st["stats"]})
             mat = True
             if ev["e"] == "newdf":
@@ -1051,42 +1148,57 @@ def coq_term(case, obs):
             iobs = "IRaise"
         return f"check_save_load {coq_frame(obs['raw'])} {C.cz(cs)} {iobs}"
     if case["kind"] == "history":
-        if not ascii_ok(obs["fresh_raw"]) or len(obs["steps"]) != len(case["events"]):
+        if not all(ascii_ok(r["raw"]) for r in obs["refs"]) or len(obs["steps"]) != len(case["events"]):
             return None
-        evs, ios = [], []
+        # The model speaks about ONE table and one process-independent file.  A history is cut into segments
+        # at the events that give the path to another table or damage the file in place; each segment is the
+        # model run from its initial world, opened by the model event that produces the segment's start state.
+        segs = [[0, [], []]]                      # [ref id, events, implementation observations]
+        km_of = lambda st: 0 if st["k"] == 0 else (2 if st["k"] >= st["len"] else 1)  # noqa: E731
+        # (the toy codec's complete file has 2 "bytes": 0 = nothing written, 1 = cut, 2 = complete)
         for i, (ev, st) in enumerate(zip(case["events"], obs["steps"])):
             if "skipped" in st:
                 continue
+            mat_obs = lambda: (f"(IMat {coq_frame_obs(st['tf'])} {C.cz(digest(st['stats']))})"   # noqa: E731
+                               if st["ok"] else "IRaise")
             if ev["e"] == "derived":
                 # the derived object is outside the model (its frame is not the fresh one); with the cache
                 # file present its materialize(path) is a no-op on the world, which is what the oracle checks
                 continue
+            if ev["e"] == "rewrite":
+                if ev["how"] == "remove":         # no file, new object over the other table, materialize(path)
+                    segs.append([st["ref"], ["NewDatasetMaterialize crows true"], [mat_obs()]])
+                elif st["ok"]:                    # a complete file of the other table appears, fresh object
+                    segs.append([st["ref"], ["CrashDuringSave crows 2%nat"], ["ICrash"]])
+                else:
+                    return None
+                continue
+            if ev["e"] == "cut":                  # the complete file becomes its k-prefix, fresh object
+                segs.append([st["ref"], [f"CrashDuringSave crows {C.cnat(km_of(st))}"], ["ICrash"]])
+                continue
+            evs, ios = segs[-1][1], segs[-1][2]
             if ev["e"] == "newdf":
                 # the file exists, so the compute branch (the only place the table enters) is not reached
                 evs.append("NewDatasetMaterialize crows true")
-                ios.append(f"(IMat {coq_frame_obs(st['tf'])} {C.cz(digest(st['stats']))})" if st["ok"] else "IRaise")
-                continue
-            if ev["e"] == "mat":
+                ios.append(mat_obs())
+            elif ev["e"] == "mat":
                 evs.append(f"Materialize crows {C.cbool(ev['path'])}")
+                ios.append(mat_obs())
             elif ev["e"] == "new":
                 evs.append(f"NewDatasetMaterialize crows {C.cbool(ev['path'])}")
+                ios.append(mat_obs())
             elif ev["e"] == "crash":
-                # the toy codec's complete file has 2 "bytes": 0 = nothing written, 1 = cut, 2 = complete
-                if st.get("saved"):
-                    km = 0 if st["k"] == 0 else (2 if st["k"] >= st["len"] else 1)
-                else:
-                    km = 1
-                evs.append(f"CrashDuringSave crows {C.cnat(km)}")
+                evs.append(f"CrashDuringSave crows {C.cnat(km_of(st) if st.get('saved') else 1)}")
+                ios.append("ICrash")
             else:
                 if "fresh_raises" in st:
                     return None
                 evs.append(f"@Convert crows {C.cnat(i)}")
-            if ev["e"] in ("mat", "new"):
-                ios.append(f"(IMat {coq_frame_obs(st['tf'])} {C.cz(digest(st['stats']))})" if st["ok"] else "IRaise")
-            elif ev["e"] == "crash":
-                ios.append("ICrash")
-            else:
                 ios.append(f"(IConv {C.cbool(bool(st.get('same')))} {C.cnat(i)})" if st["ok"] else "IRaise")
-        fresh = f"({coq_frame(obs['fresh_raw'])}, {C.cz(digest(obs['fresh_stats']))})"
-        return f"check_history {fresh} {C.clist(evs)} {C.clist(ios)}"
+        terms = []
+        for rid, evs, ios in segs:
+            r = obs["refs"][rid]
+            fresh = f"({coq_frame(r['raw'])}, {C.cz(digest(r['stats']))})"
+            terms.append(f"check_history {fresh} {C.clist(evs)} {C.clist(ios)}")
+        return "(" + " && ".join(terms) + ")"
     return None
